@@ -13,6 +13,10 @@ from pyexpr import Untranslatable  # noqa: E402
 
 REPO = os.environ.get("BARTIQ_REPO", "/repo")
 OUT = os.path.join(HERE, "..", "coq", "generated")
+# committed copies of the generated files as they are on the tree the proofs were written against; when a source file can
+# no longer be translated (its shape left the whitelisted grammar) the copy serves as a HAND-WRITTEN model for that run and
+# is tied to the code by the correspondence streams only (the second of the two ties; see DESIGN.md section 10.6)
+SNAP = os.path.join(HERE, "..", "coq", "snapshots")
 
 
 def _targets():
@@ -32,16 +36,20 @@ def main():
     os.makedirs(OUT, exist_ok=True)
     shas = {}
     failures = []
+    fallbacks = []
     for fname, sources, gen in _targets():
         try:
             text = gen()
-        except Untranslatable as e:
-            failures.append((fname, str(e)))
-            # leave a file that cannot compile so nothing stale is used
-            text = f'(* translation failed: see translator output *)\nDefinition translation_failed : nat := "{fname}".\n'
-        except Exception as e:  # source does not even parse, file missing, ...
-            failures.append((fname, f"{type(e).__name__}: {e}"))
-            text = f'(* translation failed *)\nDefinition translation_failed : nat := "{fname}".\n'
+        except Exception as e:  # Untranslatable: shape outside the grammar; anything else: source does not parse, file missing
+            why = str(e) if isinstance(e, Untranslatable) else f"{type(e).__name__}: {e}"
+            snap = os.path.join(SNAP, fname)
+            if os.path.exists(snap) and os.environ.get("VERIF_NO_SNAPSHOT") != "1":
+                fallbacks.append((fname, why))
+                text = open(snap).read()
+            else:
+                failures.append((fname, why))
+                # leave a file that cannot compile so nothing stale is used
+                text = f'(* translation failed: see translator output *)\nDefinition translation_failed : nat := "{fname}".\n'
         path = os.path.join(OUT, fname)
         old = open(path).read() if os.path.exists(path) else None
         if old != text:
@@ -52,7 +60,9 @@ def main():
             shas[s] = hashlib.sha256(open(p, "rb").read()).hexdigest() if os.path.exists(p) else None
         print(f"generated {fname} ({'changed' if old != text else 'unchanged'})")
     with open(os.path.join(OUT, "MANIFEST.sha"), "w") as f:
-        json.dump({"sources": shas, "failures": failures}, f, indent=1)
+        json.dump({"sources": shas, "failures": failures, "fallbacks": fallbacks}, f, indent=1)
+    for fname, why in fallbacks:
+        print(f"TRANSLATION-FALLBACK {fname}: {why}")
     for fname, why in failures:
         print(f"TRANSLATION-FAILED {fname}: {why}")
     return 2 if failures else 0
